@@ -20,6 +20,8 @@ pub struct GenOpts {
     pub c_fields: bool,
     /// line / block comment directly after a block opener (`then`, `do`, `else`, `repeat`, function header)
     pub c_after_opener: bool,
+    /// redundant parentheses (conditions, sub-expressions) even in `clean` programs
+    pub redundant_parens: bool,
     /// comment on its own line after the last statement of a nested block (before `end` / `else` / `until`)
     pub c_block_end: bool,
     /// comment on its own line between an `if` condition and `then`
@@ -50,6 +52,7 @@ impl GenOpts {
             c_after_opener: false,
             c_before_then: false,
             c_block_end: false,
+            redundant_parens: false,
             c_anywhere: false,
             ignores: false,
             inner_newlines: true,
@@ -874,13 +877,14 @@ impl<'a, 'b> G<'a, 'b> {
     }
 
     fn cond_expr(&mut self) {
-        if !self.o.clean && self.t.chance(50) {
+        if (!self.o.clean || self.o.redundant_parens) && self.t.chance(50) {
             self.labels.insert("cond-parens");
-            self.push("(");
+            let double = self.t.chance(60);
+            self.push(if double { "((" } else { "(" });
             self.opt();
             self.expr(3);
             self.opt();
-            self.push(")");
+            self.push(if double { "))" } else { ")" });
         } else {
             self.expr(3);
         }
@@ -1037,7 +1041,8 @@ impl<'a, 'b> G<'a, 'b> {
                     self.type_expr(depth.saturating_sub(1));
                     // `>>` is one token for the lexer but two for the type grammar: positions of the enclosing
                     // nodes are then off by one, so nested generics are written `> >`
-                    if self.out.ends_with('>') {
+                    // (clean programs are never combined with a range and must not contain a spelling the formatter shortens)
+                    if self.out.ends_with('>') && !self.o.clean {
                         self.push(" ");
                     }
                     self.push(">");
@@ -1081,6 +1086,20 @@ impl<'a, 'b> G<'a, 'b> {
             5 | 6 => {
                 self.labels.insert("type-table");
                 self.push("{");
+                if self.t.chance(40) {
+                    // array type, with or without an access modifier
+                    self.labels.insert("type-array");
+                    self.sp();
+                    match self.t.pick(4) {
+                        0 => self.push("read "),
+                        1 => self.push("write "),
+                        _ => {}
+                    }
+                    self.type_expr(depth - 1);
+                    self.sp();
+                    self.push("}");
+                    return;
+                }
                 let n = self.t.pick(4);
                 if n > 0 {
                     self.sp();
@@ -1089,6 +1108,17 @@ impl<'a, 'b> G<'a, 'b> {
                     if i > 0 {
                         self.push(",");
                         self.sp();
+                    }
+                    match self.t.pick(8) {
+                        0 => {
+                            self.push("read ");
+                            self.labels.insert("type-access-modifier");
+                        }
+                        1 => {
+                            self.push("write ");
+                            self.labels.insert("type-access-modifier");
+                        }
+                        _ => {}
                     }
                     if self.t.chance(40) {
                         self.push("[string]: ");
@@ -1241,7 +1271,7 @@ impl<'a, 'b> G<'a, 'b> {
         self.labels.insert("table");
         self.push("{");
         let n = if self.budget <= 0 { 0 } else { self.t.pick(5) };
-        let multiline = n > 0 && !self.o.clean && self.t.chance(70);
+        let multiline = n > 0 && !self.o.clean && self.o.inner_newlines && self.t.chance(70);
         if multiline {
             self.labels.insert("table-multiline-input");
         }
@@ -1408,7 +1438,7 @@ impl<'a, 'b> G<'a, 'b> {
                 }
                 self.expr(depth - 1);
             }
-            11 | 12 if !self.o.clean => {
+            11 | 12 if !self.o.clean || self.o.redundant_parens => {
                 self.labels.insert("paren-expr");
                 self.push("(");
                 self.opt();
